@@ -177,3 +177,36 @@ func contract_MessageInfo_mergePointer(mi *MessageInfo, dst, src pointer, opts m
 	requires(mi != nil)
 	modifiesAll()
 }
+
+// The same ownership rule for the decoders that store byte slices into messages. The alias of the
+// input buffer that lazy decoding keeps under UnmarshalAliasBuffer is the documented exception and
+// is excluded by requiring the flag to be off.
+
+//@ props C14
+//@ mode int
+//@ guard-slice-stores
+//@ nopanic
+func contract_mergeBytesSlice(dst, src pointer, f *coderFieldInfo, opts mergeOptions) {
+	requires(dst.p != nil && src.p != nil)
+	modifiesAll()
+}
+
+//@ props C14
+//@ mode int
+//@ guard-slice-stores
+//@ nopanic
+func contract_consumeBytesSlice(b []byte, p pointer, wtyp protowire.Type, f *coderFieldInfo, opts unmarshalOptions) (out unmarshalOutput, err error) {
+	requires(p.p != nil)
+	modifiesAll()
+	return
+}
+
+//@ props C14
+//@ mode int
+//@ guard-slice-stores
+//@ nopanic
+func contract_MessageInfo_unmarshalPointerEager(mi *MessageInfo, b []byte, p pointer, groupTag protowire.Number, opts unmarshalOptions) (out unmarshalOutput, err error) {
+	requires(mi != nil && p.p != nil)
+	modifiesAll()
+	return
+}
